@@ -37,8 +37,8 @@ def run(eng, R):
     check(eng, R, "H-conv", GM, "uncertainties_rel", "assign", "self.uncertainties / self.values", target="self._uncertainties_rel", when="=not (self.matrix_type == 'cov')", what="relative sigma = sigma / values", known=KM)
     MG = "MatrixGaussianError"
     check(eng, R, "H-conv", MG, "_calculate_cov_mat_from_cor_mat_and_error_array", "return", "CovMat(outer(error_array, error_array) * corr_mat)", what="covariance = outer(sigma, sigma) o correlation")
-    check(eng, R, "H-conv", MG, "_calculate_cov_mat_rel_from_cov", "return", "CovMat(cov_mat / outer(reference, reference))", what="relative covariance = covariance / outer(reference, reference)")
-    check(eng, R, "H-conv", MG, "_calculate_cov_mat_from_cov_rel", "return", "CovMat(cov_mat_rel * outer(reference, reference))", what="covariance = relative covariance x outer(reference, reference)")
+    check(eng, R, "H-conv", MG, "_calculate_cov_mat_rel_from_cov", "return", "CovMat(cov_mat / outer(reference, reference))", known=["cov_mat", "reference", "()abs"], what="relative covariance = covariance / outer(reference, reference)")
+    check(eng, R, "H-conv", MG, "_calculate_cov_mat_from_cov_rel", "return", "CovMat(cov_mat_rel * outer(reference, reference))", known=["cov_mat_rel", "reference", "()abs"], what="covariance = relative covariance x outer(reference, reference)")
 
     # ---- inverse pairs (x * r) / r == x
     pairs = [
